@@ -91,14 +91,59 @@ fn main() {
         eprintln!("HARNESS ERROR: reference model self-check failed: {}", e);
         std::process::exit(2);
     }
+    // replay: the witness file names the signature, tier and seed; generators are deterministic in (tier, seed),
+    // so re-running the monitor at those settings re-creates the witnessed case; exit 1 iff the signature recurs
+    let mut replay_info: Option<(String, String)> = None;
     if let Some(r) = replay {
-        eprintln!("replay of {} is not implemented for this witness kind; see the witness JSON", r);
-        std::process::exit(2);
+        let text = match std::fs::read_to_string(&r) {
+            Ok(t) => t,
+            Err(e) => {
+                eprintln!("cannot read replay file {}: {}", r, e);
+                std::process::exit(2);
+            }
+        };
+        let field = |name: &str| -> Option<String> {
+            let key = format!("\"{}\":", name);
+            let i = text.find(&key)? + key.len();
+            let rest = text[i..].trim_start();
+            if let Some(stripped) = rest.strip_prefix('"') {
+                let mut out = String::new();
+                let mut esc = false;
+                for c in stripped.chars() {
+                    if esc {
+                        out.push(c);
+                        esc = false;
+                    } else if c == '\\' {
+                        esc = true;
+                    } else if c == '"' {
+                        break;
+                    } else {
+                        out.push(c);
+                    }
+                }
+                Some(out)
+            } else {
+                Some(rest.chars().take_while(|c| c.is_ascii_digit()).collect())
+            }
+        };
+        match (field("signature"), field("tier"), field("seed")) {
+            (Some(sig), Some(t), Some(sd)) => {
+                tier = t;
+                seed = sd.parse().unwrap_or(1);
+                replay_info = Some((sig, r.clone()));
+            }
+            _ => {
+                eprintln!("replay file {} lacks signature/tier/seed", r);
+                std::process::exit(2);
+            }
+        }
+    } else {
+        // witnesses of earlier runs of this property are stale
+        let _ = std::fs::remove_dir_all(format!("{}/replay/{}", report::verif_root(), id));
     }
-    // witnesses of earlier runs of this property are stale
-    let _ = std::fs::remove_dir_all(format!("{}/replay/{}", report::verif_root(), id));
     let mut rep = Report::new(&id, &tier, seed);
     rep.print_findings = print_findings;
+    rep.replay = replay_info;
     let (rule, exhaustive, assumptions): (&str, bool, Vec<&str>) = match id.as_str() {
         "C01" => {
             c01::run(&rep);
